@@ -160,6 +160,13 @@ def run_case(case):
         'suite': {'t': 'suite', 'ch': [
             {'t': 'class', 'name': 'TestExtra',
              'tests': [{'name': 'test_e', 'kind': 'pass'}]}]}})
+    # a quarter of the worlds also have classes that are run as a unit
+    # (class fixtures: fine or skipping here, made to raise by the plans)
+    unodes = []
+    if rng.random() < 0.25:
+        unodes = gen.add_unit_nodes(
+            rng, spec, fixtures=[{'setUpClass': 'ok', 'tearDownClass': 'ok'},
+                                 {'setUpClass': 'skip'}])
     tests = {tid: (ts, layer) for tid, ts, layer, lvl, m, node
              in vworld.iter_tests(spec)}
     tids = sorted(tests)
@@ -179,6 +186,10 @@ def run_case(case):
         singles.append(('layer', ln, 'setUp'))
         singles.append(('layer', ln, 'tearDown'))
     singles.append(('module', spec['modules'][-1]['name']))
+    for un in unodes:
+        singles.append(('unit', un['name'], rng.choice(
+            [{'setUpClass': 'raise:ValueError'},
+             {'tearDownClass': 'raise:KeyError'}])))
 
     def apply(plan, item):
         import copy
@@ -199,6 +210,8 @@ def run_case(case):
             elif rng.random() < 0.15:
                 p['_repeat'] = 2
             p.setdefault('tests', {})[item[1]] = ov
+        elif item[0] == 'unit':
+            p.setdefault('units', {})[item[1]] = item[2]
         elif item[0] == 'layer':
             p.setdefault('layers', {}).setdefault(item[1], {})[item[2]] = \
                 'raise:' + rng.choice(['ValueError', 'KeyError', 'NeedsArgs'])
@@ -359,6 +372,8 @@ def run_case(case):
                     sigs.append([common.shape_of(spec), plan, sorted(modes)])
             if intended_bad:
                 C('bad_plans')
+            if plan.get('units'):
+                C('class_fixture_fault_plans')
             if label == 'chain':
                 C('base_edge_fault_plans')
             if plan.get('_repeat'):
